@@ -25,7 +25,7 @@ theorem size_le_slots (h : run cfg ops = some (s, tr)) : s.entries.length ≤ cf
 
 /-- Fresh (hits): whenever a lookup returns a cached value `v` for `k` at time `t`, that value was put for `k` by a load that
 finished at some `t0 ≤ t` with `t - t0 < lifetime`; and the lookup is the one that was just issued. -/
-theorem never_stale (h : run cfg ops = some (s, tr)) (hs : step cfg s op = some (s', e)) (c k v t : Nat)
+theorem never_stale (h : run cfg ops = some (s, tr)) (hs : step cfg s op = some (s', e)) (c k : Nat) (v : Val) (t : Nat)
     (hh : Ev.hit c k v t ∈ e) :
     op = Op.lookup c k ∧ t = s.now ∧ ∃ t0, Ev.put k v t0 ∈ tr ∧ t0 ≤ t ∧ t < t0 + cfg.lifetime := by
   have hi := reach_inv (run_reach h)
@@ -78,7 +78,7 @@ theorem never_stale (h : run cfg ops = some (s, tr)) (hs : step cfg s op = some 
 
 /-- Fresh (waiters): when the load of `k` returns `v`, every caller waiting for it receives exactly `v`, in the very step that
 puts `v` into the cache. -/
-theorem waiters_get_loaded_value (k v : Nat) (ws : List Nat) (hw : waitersOf k s.inflight = some ws)
+theorem waiters_get_loaded_value (k : Nat) (v : Val) (ws : List Nat) (hw : waitersOf k s.inflight = some ws)
     (hs : step cfg s (Op.loadOk k v) = some (s', e)) :
     Ev.put k v s.now ∈ e ∧ (∀ c ∈ ws, Ev.loaded c k v s.now ∈ e) ∧
     ∀ c k' v' t, Ev.loaded c k' v' t ∈ e → c ∈ ws ∧ k' = k ∧ v' = v ∧ t = s.now := by
@@ -95,6 +95,23 @@ theorem waiters_get_loaded_value (k v : Nat) (ws : List Nat) (hw : waitersOf k s
     · simp at hh
     · obtain ⟨_, h2⟩ := this _ hh; simp at h2
     · simp at hh; obtain ⟨rfl, rfl, rfl, rfl⟩ := hh; exact ⟨hc0, rfl, rfl, rfl⟩
+
+/-- Values are opaque: whatever a load returned — `None` (`Val = none`), a falsy `0` / `''` / `[]`, anything — a cached, unexpired
+key is a HIT: the lookup returns exactly the stored value at once, starts no load, and changes nothing.  (Whether a key is cached
+is decided by the key, never by the value.) -/
+theorem cached_value_is_a_hit (c k : Nat) (e0 : Entry) (hf : findKey k s.entries = some e0) (hfresh : s.now < e0.expiry)
+    (hc : awaited c s.inflight = none) :
+    step cfg s (Op.lookup c k) = some (s, [Ev.hit c k e0.val s.now]) := by
+  have hx : expire k s.now s.entries = (s.entries, []) := by
+    unfold expire; simp only [hf]; rw [if_neg (by omega)]
+  simp only [step, hc, hx, hf]
+  simp
+
+/-- Internal consistency, after every step: the cache holds each key once (`_cache`, `_expiry_time` and `_keys_by_expiry` have the
+same key set — one list in the model), the expiry index is sorted by expiry, and at most `num_slots` keys are held. -/
+theorem internally_consistent (h : run cfg ops = some (s, tr)) :
+    (ekeys s.entries).Nodup ∧ Sorted s.entries ∧ s.entries.length ≤ cfg.slots :=
+  ⟨(reach_inv (run_reach h)).enodup, reach_sorted (run_reach h), (reach_inv (run_reach h)).size⟩
 
 /-- Single flight (state): after every step `_futures` holds at most one load per key. -/
 theorem single_flight (h : run cfg ops = some (s, tr)) : (ikeys s.inflight).Nodup :=
@@ -252,6 +269,12 @@ example : run ⟨3, 1⟩ [.lookup 0 7, .lookup 1 7, .cancelCaller 0, .loadOk 7 7
 example : run ⟨3, 1⟩ [.lookup 0 7, .lookup 1 7, .lookup 2 8, .loadFail 7]
     = some (⟨0, [], [(8, [2])]⟩,
         [.started 7, .joined 0 7, .joined 1 7, .started 8, .joined 2 8, .loadFailed 7, .failed 0 7, .failed 1 7]) := by decide
+-- a load that returns None: cached like any other value — the repeat lookup is a hit returning None, no second load; later it
+-- expires and is evicted like any other entry
+example : run ⟨3, 1⟩ [.lookup 0 5, .loadOk 5 none, .lookup 1 5, .lookup 2 6, .loadOk 6 7, .lookup 3 5]
+    = some (⟨0, [⟨6, 7, 3⟩], [(5, [3])]⟩,
+        [.started 5, .joined 0 5, .put 5 none 0, .loaded 0 5 none 0, .hit 1 5 none 0, .started 6, .joined 2 6, .put 6 7 0,
+         .evicted 5, .loaded 2 6 7 0, .started 5, .joined 3 5]) := by decide
 -- not behaviours: finishing a load that is not in flight; a suspended caller calling lookup again
 example : run ⟨3, 1⟩ [.loadOk 7 1] = none := by decide
 example : run ⟨3, 1⟩ [.lookup 0 7, .lookup 0 8] = none := by decide
